@@ -2,7 +2,8 @@
 """Regenerates MANIFEST.json from lib/manifest_props.py (kept valid at all times)."""
 import json, os, sys
 sys.path.insert(0, os.path.dirname(os.path.abspath(__file__)))
-from manifest_props import CHECKS, NOT_APPLICABLE, HOOK_COMMITS
+from propcfg import MANIFESTS as CHECKS
+from manifest_extra import NOT_APPLICABLE, HOOK_COMMITS
 ALL = ["C%02d" % i for i in range(1, 21)]
 checks = []
 for pid in ALL:
